@@ -607,7 +607,9 @@ def r8(ctx):
     """point lookups and queries through the asynchronous handle are the store's, with the request's own author, key,
     include-deleted flag resp. query"""
     from . import actorfw
-    actorfw.claim(ctx, "C05.R8", handlers=("GetExact", "GetMany"), clients=("get_exact", "get_many"), floor=8)
+    actorfw.claim(ctx, "C05.R8", handlers=("GetExact", "GetMany"), clients=("get_exact", "get_many"))
+    actorfw.check_stream(ctx, "C05.R8")        # the task that streams a query's rows to the caller: every row, in order
+    ctx.floor("C05.R8", 14)
 
 
 def r9(ctx):
